@@ -50,14 +50,14 @@ type violation struct {
 }
 
 type violationReport struct {
-	Seed       uint64     `json:"seed"`
-	Violation  *violation `json:"violation"`
-	Replay     string     `json:"replay"`
-	TapeLen    int        `json:"tape_len"`
-	ShrunkLen  int        `json:"shrunk_len"`
-	Reproduced bool       `json:"reproduced"`
-	Known      bool       `json:"known"`
-	NeedsReplay bool      `json:"needs_replay"`
+	Seed        uint64     `json:"seed"`
+	Violation   *violation `json:"violation"`
+	Replay      string     `json:"replay"`
+	TapeLen     int        `json:"tape_len"`
+	ShrunkLen   int        `json:"shrunk_len"`
+	Reproduced  bool       `json:"reproduced"`
+	Known       bool       `json:"known"`
+	NeedsReplay bool       `json:"needs_replay"`
 }
 
 var verifDir = "/verif"
@@ -205,6 +205,8 @@ func loadKnown(id string) []known {
 func runWorker(bin string, env []string, timeout time.Duration) (string, error) {
 	cmd := exec.Command(bin, "-test.run", "^TestSim$", "-test.timeout", "0")
 	cmd.Env = append(os.Environ(), env...)
+	// the instrumented sources the binary was built from (panic call sites are named by their statement)
+	cmd.Env = append(cmd.Env, "SIM_SRC="+filepath.Join(filepath.Dir(bin), "repo"))
 	var buf strings.Builder
 	cmd.Stdout = &buf
 	cmd.Stderr = &buf
@@ -623,26 +625,26 @@ func report(p *propCfg, tier string, seed int64, outs []batchOut, crashes []viol
 		stl = stl[:12]
 	}
 	cov := map[string]any{
-		"evaluations":              total.Runs,
-		"distinct_nontrivial":      len(distinct),
-		"rule":                     p.Rule,
-		"samples":                  total.Samples,
-		"nontrivial_runs":          total.NonTrivial,
-		"sim_seconds":              total.SimSeconds,
-		"runs_per_hour":            float64(total.Runs) / (wall / 3600),
-		"schedule_decisions":       total.Steps,
-		"contended_decisions":      total.Contended,
-		"distinct_interleavings":   len(ilv),
-		"distinct_abstract_states": len(states),
-		"abstract_state_examples":  stl,
-		"faults_fired":             faults,
-		"probes":                   probes,
-		"counters":                 other,
-		"end_reasons":              total.Reasons,
-		"real_components":          p.Real,
-		"stubbed_components":       p.Stub,
-		"build_s":                  buildS,
-		"seeds":                    fmt.Sprintf("%d + i, i in [0,%d)", uint64(seed)*1_000_000, total.Runs),
+		"evaluations":               total.Runs,
+		"distinct_nontrivial":       len(distinct),
+		"rule":                      p.Rule,
+		"samples":                   total.Samples,
+		"nontrivial_runs":           total.NonTrivial,
+		"sim_seconds":               total.SimSeconds,
+		"runs_per_hour":             float64(total.Runs) / (wall / 3600),
+		"schedule_decisions":        total.Steps,
+		"contended_decisions":       total.Contended,
+		"distinct_interleavings":    len(ilv),
+		"distinct_abstract_states":  len(states),
+		"abstract_state_examples":   stl,
+		"faults_fired":              faults,
+		"probes":                    probes,
+		"counters":                  other,
+		"end_reasons":               total.Reasons,
+		"real_components":           p.Real,
+		"stubbed_components":        p.Stub,
+		"build_s":                   buildS,
+		"seeds":                     fmt.Sprintf("%d + i, i in [0,%d)", uint64(seed)*1_000_000, total.Runs),
 		"known_findings_reproduced": len(knownHit),
 	}
 	if p.Enumerate {
